@@ -13,7 +13,7 @@ import numpy as np
 from harness import session as S
 from harness.core import setup_repo_imports
 
-REPACTS = ["transpose_df", "transpose_lead", "fortran", "strided", "cast32", "roll1", "roll_seam", "flip", "sortdir"]
+REPACTS = ["transpose_df", "transpose_lead", "fortran", "strided", "cast32", "bigendian", "roll1", "roll_seam", "flip", "sortdir"]
 CIRC = {"dm", "dp", "dpm"}
 
 
@@ -38,7 +38,7 @@ def run(ctx):
             programs.append((acts, v["rep"]))
     ctx.note("programs_from_tlc", len(programs))
     ctx.exhaustive = True
-    ctx.rule = ("TLC enumerates all sequences of <= %d representation actions (9 actions, no-ops pruned); every program x every operation "
+    ctx.rule = ("TLC enumerates all sequences of <= %d representation actions (10 actions, no-ops pruned); every program x every operation "
                 "(%d statistics/transforms/partitions) is replayed and compared by label with the canonical representation. "
                 "distinct_nontrivial = distinct (program, operation) pairs with a non-empty program." % (maxlen, len(ops)))
     canon = {}
